@@ -1,5 +1,6 @@
 import Secp.Proofs.Ecdsa
 import Secp.Props.C03
+import Secp.Proofs.Slices
 /-
   Props/C02 — ECDSA verification accepts exactly the valid signatures.
   Model: `Secp.Model.verifyM` (hand-written mirror of Signature.Verify whose point operations are
@@ -35,5 +36,14 @@ example : (1 : Nat) < P ∧ (1 : Nat) ≠ 0 ∧ (5 : Nat) < N := by decide
 theorem verify_iff_unconditional (h : Bytes) (x y r s : Nat) (hQ : OnCurve x y) (hr : r < N) (hs : s < N) :
     verifyM h (x, y) r s = ecdsaVerify h (some (x, y)) r s :=
   verify_iff Secp.Props.C03.pointSpec h x y r s hQ hr hs
+
+
+/-- Limb level of this property's own functions: the REGENERATED sliced field programs (tools/gotr pass T2s,
+    `Secp.Gen.Slices`) of steps 5-10 of `Verify` (infinity test, z², r·z² and (r+n)·z² compared with X.x, the r+n<p guard) pass the abstract interpreter on every path — no magnitude overflow, every
+    comparison / parity test / serialisation reads a normalised value, every callee's precondition holds,
+    every returned key or point is normalised.  Together with C05 (kernels) and C16 (`absPath_sound`,
+    `contracts_justified`) this is what makes the value-level model above faithful to the limb code. -/
+theorem verify_field_arithmetic_exact :
+    Secp.Proofs.Slices.entriesOK ["github.com/ModChain/secp256k1.Signature.Verify", "github.com/ModChain/secp256k1.modNScalarToField", "github.com/ModChain/secp256k1.PublicKey.AsJacobian"] = true := by decide +kernel
 
 end Secp.Props.C02
